@@ -56,9 +56,11 @@ def rechunk(path, key, chunks):
 
 
 def write_h5ad(path, M, obs_names, var_names, encoding='dense', layer=None,
-               obs_cols=None, var_cols=None, chunks=None, x_other=None, uns=None):
+               obs_cols=None, var_cols=None, chunks=None, x_other=None, uns=None, chunk_shape=None):
     """Write M (2-d ndarray, dtype preserved) to `path` as X or as layers[layer].
-    chunks: None (leave as anndata writes) | 'contiguous' | int n (n-element / n x n chunks)."""
+    chunks: None (leave as anndata writes) | 'contiguous' | int n (n-element / n x n chunks).
+    chunk_shape: optional (r, c) - a dense matrix is stored in r x c HDF5 chunks (clipped to the
+    shape of the matrix) instead of the square ones `chunks` gives; sparse encodings ignore it."""
     obs = pd.DataFrame(obs_cols or {}, index=pd.Index([str(o) for o in obs_names]))
     var = pd.DataFrame(var_cols or {}, index=pd.Index([str(v) for v in var_names]))
     if layer is None:
@@ -72,10 +74,13 @@ def write_h5ad(path, M, obs_names, var_names, encoding='dense', layer=None,
         key = 'X' if layer is None else f'layers/{layer}'
         c = None if chunks == 'contiguous' else chunks
         if encoding == 'dense':
-            rechunk(path, key, None if c is None else (c, c))
+            if chunk_shape is None:
+                rechunk(path, key, None if c is None else (c, c))
         else:
             for sub in ('data', 'indices', 'indptr'):
                 rechunk(path, f'{key}/{sub}', None if c is None else (c,))
+    if chunk_shape is not None and encoding == 'dense':
+        rechunk(path, 'X' if layer is None else f'layers/{layer}', tuple(int(v) for v in chunk_shape))
     return path
 
 
